@@ -24,8 +24,10 @@ class Expression:
 
     def compile(self, out, flags):
         if not out.has_available_blocks(self.num_blocks):
+            # Too deep for Python: move this expression into a helper. The
+            # helper may have to call other rules, so it is a generator, too.
             func, params = self.functionalize(out, flags, is_generator=False)
-            out += (STATUS, RESULT, POS) << func(*params)
+            out += (STATUS, RESULT, POS) << Code('(yield from ', func(*params), ')')
             return
 
         if self.is_tagged:
@@ -67,6 +69,10 @@ class Expression:
 
         with out.global_section():
             with out.DEF(name, params):
+                if not is_generator:
+                    # Called with "yield from": make sure that it is a
+                    # generator even if the body never yields.
+                    out += Code('yield from ()')
                 self.compile(out, flags)
                 method = out.YIELD if is_generator else out.RETURN
                 method((STATUS, RESULT, POS))
